@@ -303,6 +303,10 @@ Record mon := Mon {
 }.
 
 Definition good_now (sid : Z) (l : list region) : list region := filter (fun r => (r_sid r =? sid) && r_int r) l.
+(* the good set is a set of key ranges: one entry per (start, end) *)
+Definition same_range (a b : region) : bool := String.eqb (r_start a) (r_start b) && String.eqb (r_end a) (r_end b).
+Definition add_ranges (acc new : list region) : list region :=
+  fold_left (fun a r => if existsb (same_range r) a then a else r :: a) new acc.
 
 (* is there a chain of good regions from key k to +inf ?  (fuel = number of good regions) *)
 Fixpoint chain_from (fuel : nat) (good : list region) (k : string) : bool :=
@@ -331,7 +335,7 @@ Definition mon_step (m : mon) (o : op) (prev cur : obs) : mon * list string :=
   let pid := match ps with Some x => st_id x | None => 0 end in
   (* the id the scan of this tick ran under: the new one if this very tick entered sync_recover *)
   let scan_id := match cs with Some x => if dstate_eqb (st_state x) SyncRecover then st_id x else pid | None => pid end in
-  let acc := ((if m_gid m =? scan_id then m_good m else []) ++ good_now scan_id (m_regions m))%list in
+  let acc := add_ranges (if m_gid m =? scan_id then m_good m else []) (good_now scan_id (m_regions m)) in
   let v := (
     (* 1 async only when one dc lost all its replicas, a majority can be up, and the timeout passed *)
     (if is_tick && to Async && negb (negb csync && hmaj && cf_async_ok (m_cfg m)) then ["C19:async-without-cause"] else []) ++
